@@ -17,7 +17,7 @@ RULE = ('`python -m pyx12.scripts.x12norm` is run as a subprocess (one process p
         'non-trivial = distinct (document, option set) pairs; for the repair part those with >=1 perturbed counter.')
 ASSUMPTIONS = ['input files are ASCII (the tool opens files as ASCII by design); one input file per invocation',
                'a segment without any element is not generated (format() writes "SE*~" for "SE~")', 'the exit status and log lines on stderr are not judged']
-REQUIRED_COUNTERS = ['invocations', 'mode:stdout', 'mode:output', 'mode:inplace', 'opt:eol', 'opt:fixcounting', 'idempotence-checked', 'repairs-checked', 'perturbed-counters']
+REQUIRED_COUNTERS = ['inputs:longer-than-one-read-buffer:inplace', 'inputs:longer-than-one-read-buffer:output', 'inputs:longer-than-one-read-buffer:stdout', 'invocations', 'mode:stdout', 'mode:output', 'mode:inplace', 'opt:eol', 'opt:fixcounting', 'idempotence-checked', 'repairs-checked', 'perturbed-counters']
 MIN_CASES = {'quick': 120, 'thorough': 3000}
 WATCHDOG_S = {'quick': 1200, 'thorough': 7200}
 
@@ -181,13 +181,19 @@ def run(ctx):
         else:
             e = entries[(k * 3 + ctx.shard) % len(entries)]
             terms = TERMS[k % len(TERMS)]
+            big = (k % 3 == 2)
             try:
-                doc = gen_doc.gen_document(e, rng.randrange(1 << 30), fill=0.3, opt_prob=0.5, maxrep=2, charset='E', rich=(k % 3 == 0), n_st=rng.choice([1, 2]),
-                                           n_gs=rng.choice([1, 2]), n_isa=rng.choice([1, 1, 2]), forbid='~*:^' + ''.join(terms))
+                if big:
+                    doc = gen_doc.gen_document(e, rng.randrange(1 << 30), fill=0.5, opt_prob=0.8, maxrep=2, charset='E', rich=False, n_st=3, n_gs=2, n_isa=1, forbid='~*:^' + ''.join(terms))
+                else:
+                    doc = gen_doc.gen_document(e, rng.randrange(1 << 30), fill=0.3, opt_prob=0.5, maxrep=2, charset='E', rich=(k % 3 == 0), n_st=rng.choice([1, 2]),
+                                               n_gs=rng.choice([1, 2]), n_isa=rng.choice([1, 1, 2]), forbid='~*:^' + ''.join(terms))
             except gen_doc.GenFailed:
                 continue
-            if len(doc.recs) > 300:
+            if len(doc.recs) > (2500 if big else 300):
                 continue
+            if big and len(doc.text()) > 8298:
+                ctx.count('inputs:longer-than-one-read-buffer:' + mode)
             if fix and rng.random() < 0.8:
                 doc, nper = perturb(rng, doc)
             brk = rng.choice(['', '\n', '\r\n', '\n\n'])
